@@ -199,8 +199,19 @@ def endIdx : List Tok → Nat → Nat
   | [], i => i
   | t :: ts, i => endIdx ts (nextIdx t i)
 
-/-- `hz` flags no plain character -/
-def HzOk (hz : Char → Bool) : Prop := ∀ c, plainChar c = true → hz c = false
+/-- What a set `P` of characters must avoid so that text made of them is read as text by … -/
+structure PctOk (hz : Char → Bool) (P : Char → Bool) : Prop where   -- Sprintf / String.format
+  ne : ∀ c, P c = true → c ≠ '%' ∧ hz c = false
+  dot : P '.' = true
+structure BrOk (hz : Char → Bool) (P : Char → Bool) : Prop where    -- str.format
+  ne : ∀ c, P c = true → c ≠ '{' ∧ c ≠ '}' ∧ hz c = false
+  dot : P '.' = true
+structure DolOk (P : Char → Bool) : Prop where                      -- Dart interpolation
+  ne : ∀ c, P c = true → c ≠ '$' ∧ hzSQ c = false
+  dot : P '.' = true
+structure LitOk (hz : Char → Bool) (P : Char → Bool) : Prop where   -- a plain string literal
+  ne : ∀ c, P c = true → hz c = false
+  dot : P '.' = true
 
 theorem plain_ne (c : Char) (h : plainChar c = true) :
     c ≠ '%' ∧ c ≠ '{' ∧ c ≠ '}' ∧ c ≠ '$' ∧ hzSQ c = false ∧ hzDQ c = false := by
@@ -212,7 +223,6 @@ theorem plain_ne (c : Char) (h : plainChar c = true) :
   · intro e; simp [e] at h
   · simp [hzSQ]; exact ⟨h.1.1.1.1.2, h.1.1.1.2⟩
   · simp [hzDQ]; exact ⟨h.1.1.1.1.1.2, h.1.1.1.2⟩
-
 
 theorem pct_cons_plain (hz : Char → Bool) (c : Char) (t : Str) (i : Nat) (hc : c ≠ '%') (hzc : hz c = false) :
     pct hz (c :: t) i = .lit [c] :: pct hz t i := by
@@ -227,32 +237,34 @@ theorem br_var (hz : Char → Bool) (t : Str) (i : Nat) :
     br hz ('{' :: '}' :: t) i = .var i :: br hz t (i + 1) := by
   simp [br]
 
-theorem pct_plain (hz : Char → Bool) (hh : HzOk hz) (e : Env) (s r : Str) (i : Nat) (h : plainStr s = true) :
+theorem pct_plain (hz : Char → Bool) (P : Char → Bool) (hh : PctOk hz P) (e : Env) (s r : Str) (i : Nat)
+    (h : s.all P = true) :
     eval e (pct hz (s ++ r) i) = (eval e (pct hz r i)).map (s ++ ·) := by
   induction s with
   | nil => simp
   | cons c s ih =>
-    simp only [plainStr, List.all_cons, Bool.and_eq_true] at h
-    have hc := plain_ne c h.1
-    rw [List.cons_append, pct_cons_plain hz c _ i hc.1 (hh c h.1), eval_lit]
-    rw [ih (by simpa [plainStr] using h.2)]
+    simp only [List.all_cons, Bool.and_eq_true] at h
+    have hc := hh.ne c h.1
+    rw [List.cons_append, pct_cons_plain hz c _ i hc.1 hc.2, eval_lit]
+    rw [ih h.2]
     cases eval e (pct hz r i) <;> simp
 
-theorem br_plain (hz : Char → Bool) (hh : HzOk hz) (e : Env) (s r : Str) (i : Nat) (h : plainStr s = true) :
+theorem br_plain (hz : Char → Bool) (P : Char → Bool) (hh : BrOk hz P) (e : Env) (s r : Str) (i : Nat)
+    (h : s.all P = true) :
     eval e (br hz (s ++ r) i) = (eval e (br hz r i)).map (s ++ ·) := by
   induction s with
   | nil => simp
   | cons c s ih =>
-    simp only [plainStr, List.all_cons, Bool.and_eq_true] at h
-    have hc := plain_ne c h.1
-    rw [List.cons_append, br_cons_plain hz c _ i hc.2.1 hc.2.2.1 (hh c h.1), eval_lit]
-    rw [ih (by simpa [plainStr] using h.2)]
+    simp only [List.all_cons, Bool.and_eq_true] at h
+    have hc := hh.ne c h.1
+    rw [List.cons_append, br_cons_plain hz c _ i hc.1 hc.2.1 hc.2.2, eval_lit]
+    rw [ih h.2]
     cases eval e (br hz r i) <;> simp
 
 theorem dot_plain : plainChar '.' = true := by decide
 
-theorem pct_tok (hz : Char → Bool) (hh : HzOk hz) (e : Env) (t : Tok) (r : Str) (i : Nat)
-    (h : (t.isVar || plainStr t.text) = true) :
+theorem pct_tok (hz : Char → Bool) (P : Char → Bool) (hh : PctOk hz P) (e : Env) (t : Tok) (r : Str) (i : Nat)
+    (h : (t.isVar || t.text.all P) = true) :
     eval e (pct hz (t.piece ['%', 's'] ++ r) i) =
       (eval e (pct hz r (nextIdx t i))).map (substTok e.vals t i ++ ·) := by
   by_cases hv : t.isVar = true
@@ -260,10 +272,10 @@ theorem pct_tok (hz : Char → Bool) (hh : HzOk hz) (e : Env) (t : Tok) (r : Str
   · have hv' : t.isVar = false := by simpa using hv
     simp only [hv', Bool.false_or] at h
     simp only [Tok.piece, hv', nextIdx, substTok, Bool.false_eq_true, if_false]
-    exact pct_plain hz hh e _ r i h
+    exact pct_plain hz P hh e _ r i h
 
-theorem br_tok (hz : Char → Bool) (hh : HzOk hz) (e : Env) (t : Tok) (r : Str) (i : Nat)
-    (h : (t.isVar || plainStr t.text) = true) :
+theorem br_tok (hz : Char → Bool) (P : Char → Bool) (hh : BrOk hz P) (e : Env) (t : Tok) (r : Str) (i : Nat)
+    (h : (t.isVar || t.text.all P) = true) :
     eval e (br hz (t.piece ['{', '}'] ++ r) i) =
       (eval e (br hz r (nextIdx t i))).map (substTok e.vals t i ++ ·) := by
   by_cases hv : t.isVar = true
@@ -271,76 +283,73 @@ theorem br_tok (hz : Char → Bool) (hh : HzOk hz) (e : Env) (t : Tok) (r : Str)
   · have hv' : t.isVar = false := by simpa using hv
     simp only [hv', Bool.false_or] at h
     simp only [Tok.piece, hv', nextIdx, substTok, Bool.false_eq_true, if_false]
-    exact br_plain hz hh e _ r i h
+    exact br_plain hz P hh e _ r i h
 
-theorem pct_tail (hz : Char → Bool) (hh : HzOk hz) (e : Env) (ts : List Tok) (r : Str) (i : Nat)
-    (h : plainTokens ts = true) :
+theorem pct_tail (hz : Char → Bool) (P : Char → Bool) (hh : PctOk hz P) (e : Env) (ts : List Tok) (r : Str) (i : Nat)
+    (h : tokensOk P ts = true) :
     eval e (pct hz (renderTail ['%', 's'] ts ++ r) i) =
       (eval e (pct hz r (endIdx ts i))).map (substTail e.vals ts i ++ ·) := by
   induction ts generalizing i with
   | nil => simp [renderTail, substTail, endIdx]
   | cons t ts ih =>
-    simp only [plainTokens, List.all_cons, Bool.and_eq_true] at h
-    have hd := pct_plain hz hh e ['.'] (t.piece ['%', 's'] ++ (renderTail ['%', 's'] ts ++ r)) i (by decide)
+    simp only [tokensOk, List.all_cons, Bool.and_eq_true] at h
+    have hd := pct_plain hz P hh e ['.'] (t.piece ['%', 's'] ++ (renderTail ['%', 's'] ts ++ r)) i (by simp [hh.dot])
     simp only [renderTail, substTail, endIdx, List.cons_append, List.append_assoc]
     simp only [List.cons_append, List.nil_append] at hd
-    rw [hd, pct_tok hz hh e t _ _ h.1, ih _ (by simpa [plainTokens] using h.2)]
+    rw [hd, pct_tok hz P hh e t _ _ h.1, ih _ (by simpa [tokensOk] using h.2)]
     cases eval e (pct hz r (endIdx ts (nextIdx t i))) <;> simp
 
-theorem br_tail (hz : Char → Bool) (hh : HzOk hz) (e : Env) (ts : List Tok) (r : Str) (i : Nat)
-    (h : plainTokens ts = true) :
+theorem br_tail (hz : Char → Bool) (P : Char → Bool) (hh : BrOk hz P) (e : Env) (ts : List Tok) (r : Str) (i : Nat)
+    (h : tokensOk P ts = true) :
     eval e (br hz (renderTail ['{', '}'] ts ++ r) i) =
       (eval e (br hz r (endIdx ts i))).map (substTail e.vals ts i ++ ·) := by
   induction ts generalizing i with
   | nil => simp [renderTail, substTail, endIdx]
   | cons t ts ih =>
-    simp only [plainTokens, List.all_cons, Bool.and_eq_true] at h
-    have hd := br_plain hz hh e ['.'] (t.piece ['{', '}'] ++ (renderTail ['{', '}'] ts ++ r)) i (by decide)
+    simp only [tokensOk, List.all_cons, Bool.and_eq_true] at h
+    have hd := br_plain hz P hh e ['.'] (t.piece ['{', '}'] ++ (renderTail ['{', '}'] ts ++ r)) i (by simp [hh.dot])
     simp only [renderTail, substTail, endIdx, List.cons_append, List.append_assoc]
     simp only [List.cons_append, List.nil_append] at hd
-    rw [hd, br_tok hz hh e t _ _ h.1, ih _ (by simpa [plainTokens] using h.2)]
+    rw [hd, br_tok hz P hh e t _ _ h.1, ih _ (by simpa [tokensOk] using h.2)]
     cases eval e (br hz r (endIdx ts (nextIdx t i))) <;> simp
 
 /-- Go / Java / generation-time Sprintf over the whole prefix template followed by the delimiter. -/
-theorem pct_prefix (hz : Char → Bool) (hh : HzOk hz) (e : Env) (ts : List Tok) (delim : Str)
-    (h : plainTokens ts = true) (hd : plainStr delim = true) (hne : ts ≠ []) :
+theorem pct_prefix (hz : Char → Bool) (P : Char → Bool) (hh : PctOk hz P) (e : Env) (ts : List Tok) (delim : Str)
+    (h : tokensOk P ts = true) (hd : delim.all P = true) (hne : ts ≠ []) :
     eval e (pct hz (render ['%', 's'] ts ++ delim) 0) = some (substPrefix e.vals ts ++ delim) := by
   cases ts with
   | nil => exact absurd rfl hne
   | cons t ts =>
-    simp only [plainTokens, List.all_cons, Bool.and_eq_true] at h
+    simp only [tokensOk, List.all_cons, Bool.and_eq_true] at h
     simp only [render, substPrefix, List.append_assoc]
-    rw [pct_tok hz hh e t _ _ h.1, pct_tail hz hh e ts delim _ (by simpa [plainTokens] using h.2)]
-    have := pct_plain hz hh e delim [] (endIdx ts (nextIdx t 0)) hd
+    rw [pct_tok hz P hh e t _ _ h.1, pct_tail hz P hh e ts delim _ (by simpa [tokensOk] using h.2)]
+    have := pct_plain hz P hh e delim [] (endIdx ts (nextIdx t 0)) hd
     simp only [List.append_nil] at this
     rw [this]; simp [pct, eval]
 
-theorem br_prefix (hz : Char → Bool) (hh : HzOk hz) (e : Env) (ts : List Tok) (delim : Str)
-    (h : plainTokens ts = true) (hd : plainStr delim = true) (hne : ts ≠ []) :
+theorem br_prefix (hz : Char → Bool) (P : Char → Bool) (hh : BrOk hz P) (e : Env) (ts : List Tok) (delim : Str)
+    (h : tokensOk P ts = true) (hd : delim.all P = true) (hne : ts ≠ []) :
     eval e (br hz (render ['{', '}'] ts ++ delim) 0) = some (substPrefix e.vals ts ++ delim) := by
   cases ts with
   | nil => exact absurd rfl hne
   | cons t ts =>
-    simp only [plainTokens, List.all_cons, Bool.and_eq_true] at h
+    simp only [tokensOk, List.all_cons, Bool.and_eq_true] at h
     simp only [render, substPrefix, List.append_assoc]
-    rw [br_tok hz hh e t _ _ h.1, br_tail hz hh e ts delim _ (by simpa [plainTokens] using h.2)]
-    have := br_plain hz hh e delim [] (endIdx ts (nextIdx t 0)) hd
+    rw [br_tok hz P hh e t _ _ h.1, br_tail hz P hh e ts delim _ (by simpa [tokensOk] using h.2)]
+    have := br_plain hz P hh e delim [] (endIdx ts (nextIdx t 0)) hd
     simp only [List.append_nil] at this
     rw [this]; simp [br, eval]
 
-theorem litq_plain (hz : Char → Bool) (hh : HzOk hz) (e : Env) (s : Str) (h : plainStr s = true) :
-    eval e (litq hz s) = some s := by
+theorem litq_plain (hz : Char → Bool) (P : Char → Bool) (hh : LitOk hz P) (e : Env) (s : Str)
+    (h : s.all P = true) : eval e (litq hz s) = some s := by
   induction s with
   | nil => rfl
   | cons c s ih =>
-    simp only [plainStr, List.all_cons, Bool.and_eq_true] at h
-    simp only [litq, List.map_cons, hh c h.1, Bool.false_eq_true, if_false, eval_lit]
-    have := ih (by simpa [plainStr] using h.2)
+    simp only [List.all_cons, Bool.and_eq_true] at h
+    simp only [litq, List.map_cons, hh.ne c h.1, Bool.false_eq_true, if_false, eval_lit]
+    have := ih h.2
     simp only [litq] at this
     rw [this]; rfl
-
-
-
 
 /-! Dart -/
 def refs (names : List Str) : List Str := names.map (fun v => '$' :: v)
@@ -381,14 +390,15 @@ theorem dol_none_plain (names : List Str) (c : Char) (t : Str) (hc : c ≠ '$') 
     dolAux names none (c :: t) = .lit [c] :: dolAux names none t := by
   simp [dolAux, hc, hz]
 
-theorem dol_plain (names : List Str) (e : Env) (s r : Str) (h : plainStr s = true) :
+theorem dol_plain (names : List Str) (P : Char → Bool) (hh : DolOk P) (e : Env) (s r : Str)
+    (h : s.all P = true) :
     eval e (dolAux names none (s ++ r)) = (eval e (dolAux names none r)).map (s ++ ·) := by
   induction s with
   | nil => simp
   | cons c s ih =>
-    simp only [plainStr, List.all_cons, Bool.and_eq_true] at h
-    have hc := plain_ne c h.1
-    rw [List.cons_append, dol_none_plain names c _ hc.2.2.2.1 hc.2.2.2.2.1, eval_lit, ih (by simpa [plainStr] using h.2)]
+    simp only [List.all_cons, Bool.and_eq_true] at h
+    have hc := hh.ne c h.1
+    rw [List.cons_append, dol_none_plain names c _ hc.1 hc.2, eval_lit, ih h.2]
     cases eval e (dolAux names none r) <;> simp
 
 theorem dol_name_end (names : List Str) (n acc : Str) (h : n.all isWordChar = true) :
@@ -413,8 +423,8 @@ theorem dol_name_then (names : List Str) (n acc : Str) (c : Char) (r : Str) (h :
 /-- what may follow a `$name`: nothing, or a character that ends the identifier and is plain text -/
 def OkFollow (F : Str) : Prop := ∀ c F', F = c :: F' → isWordChar c = false ∧ c ≠ '$' ∧ hzSQ c = false
 
-theorem dol_tok (names : List Str) (e : Env) (t : Tok) (F : Str) (i : Nat)
-    (h : (t.isVar || plainStr t.text) = true)
+theorem dol_tok (names : List Str) (P : Char → Bool) (hh : DolOk P) (e : Env) (t : Tok) (F : Str) (i : Nat)
+    (h : (t.isVar || t.text.all P) = true)
     (hn : ∀ n, t.varName = some n → (refs names).getD i [] = '$' :: n ∧ resolve names n = .var i)
     (hF : t.isVar = true → OkFollow F) :
     eval e (dolAux names none (substTok (refs names) t i ++ F)) =
@@ -439,15 +449,15 @@ theorem dol_tok (names : List Str) (e : Env) (t : Tok) (F : Str) (i : Nat)
   · have hv' : t.isVar = false := by simpa using hv
     simp only [hv', Bool.false_or] at h
     simp only [substTok, hv', Bool.false_eq_true, if_false]
-    exact dol_plain names e _ F h
+    exact dol_plain names P hh e _ F h
 
 theorem dot_follow (F : Str) : OkFollow ('.' :: F) := by
   intro c F' h
   simp only [List.cons.injEq] at h
   rw [← h.1]; decide
 
-theorem dol_tail (names : List Str) (e : Env) (ts : List Tok) (r : Str) (i : Nat)
-    (h : plainTokens ts = true) (hnd : names.Nodup) (hdrop : names.drop i = varNames ts)
+theorem dol_tail (names : List Str) (P : Char → Bool) (hh : DolOk P) (e : Env) (ts : List Tok) (r : Str) (i : Nat)
+    (h : tokensOk P ts = true) (hnd : names.Nodup) (hdrop : names.drop i = varNames ts)
     (hne : ∀ n ∈ names, n ≠ [])
     (hr : lastIsVar ts = true → OkFollow r) :
     eval e (dolAux names none (substTail (refs names) ts i ++ r)) =
@@ -455,8 +465,8 @@ theorem dol_tail (names : List Str) (e : Env) (ts : List Tok) (r : Str) (i : Nat
   induction ts generalizing i with
   | nil => simp [substTail]
   | cons t ts ih =>
-    simp only [plainTokens, List.all_cons, Bool.and_eq_true] at h
-    have hdot := dol_plain names e ['.'] (substTok (refs names) t i ++ (substTail (refs names) ts (nextIdx t i) ++ r)) (by decide)
+    simp only [tokensOk, List.all_cons, Bool.and_eq_true] at h
+    have hdot := dol_plain names P hh e ['.'] (substTok (refs names) t i ++ (substTail (refs names) ts (nextIdx t i) ++ r)) (by simp [hh.dot])
     simp only [List.cons_append, List.nil_append] at hdot
     simp only [substTail, List.cons_append, List.append_assoc]
     have hnext : names.drop (nextIdx t i) = varNames ts := by
@@ -490,7 +500,7 @@ theorem dol_tail (names : List Str) (e : Env) (ts : List Tok) (r : Str) (i : Nat
       cases ts with
       | nil => simp [lastIsVar] at hl
       | cons u us => exact hr (by simpa [lastIsVar] using hl)
-    rw [hdot, dol_tok names e t _ i h.1 hn hF, ih _ (by simpa [plainTokens] using h.2) hnext hr']
+    rw [hdot, dol_tok names P hh e t _ i h.1 hn hF, ih _ (by simpa [tokensOk] using h.2) hnext hr']
     cases eval e (dolAux names none r) <;> simp
 
 
@@ -515,10 +525,6 @@ theorem eval_append (e : Env) (a b : Template) (x : Str) (h : eval e a = some x)
         subst h
         simp only [List.cons_append, eval, hs, ih z ha]
         cases eval e b <;> simp
-
-theorem hzDQ_ok : HzOk hzDQ := fun c h => (plain_ne c h).2.2.2.2.2
-theorem hzSQ_ok : HzOk hzSQ := fun c h => (plain_ne c h).2.2.2.2.1
-theorem hzNone_ok : HzOk hzNone := fun _ _ => rfl
 
 theorem varName_none_iff (t : Tok) : t.varName = none ↔ t.isVar = false := by
   cases t with
@@ -553,29 +559,90 @@ theorem novars_prefix (repl : Str) (vals : List Str) (ts : List Tok) (h : ∀ t 
     have := novars_tail repl vals ts (nextIdx t 0) (fun u hu => h u (by simp [hu]))
     simp [render, substPrefix, prefixString, Tok.piece, substTok, ht, this.1, this.2]
 
-theorem plain_tail (ts : List Tok) (h : plainTokens ts = true) (hv : ∀ t ∈ ts, t.isVar = false) :
-    plainStr (tailString ts) = true := by
+theorem all_tail (P : Char → Bool) (hdot : P '.' = true) (ts : List Tok) (h : tokensOk P ts = true)
+    (hv : ∀ t ∈ ts, t.isVar = false) : (tailString ts).all P = true := by
   induction ts with
   | nil => rfl
   | cons t ts ih =>
-    simp only [plainTokens, List.all_cons, Bool.and_eq_true] at h
+    simp only [tokensOk, List.all_cons, Bool.and_eq_true] at h
     have ht := hv t (by simp)
-    have h1 : plainStr t.text = true := by simpa [ht] using h.1
-    have h2 := ih (by simpa [plainTokens] using h.2) (fun u hu => hv u (by simp [hu]))
-    simp only [plainStr] at h1 h2 ⊢
-    simp [tailString, List.all_append, h1, h2, dot_plain]
+    have h1 : t.text.all P = true := by simpa [ht] using h.1
+    have h2 := ih (by simpa [tokensOk] using h.2) (fun u hu => hv u (by simp [hu]))
+    simp only [tailString, List.all_cons, List.all_append, hdot, h1, h2, Bool.and_self]
 
-theorem plain_prefix (ts : List Tok) (h : plainTokens ts = true) (hv : ∀ t ∈ ts, t.isVar = false) :
-    plainStr (prefixString ts) = true := by
+theorem all_prefix (P : Char → Bool) (hdot : P '.' = true) (ts : List Tok) (h : tokensOk P ts = true)
+    (hv : ∀ t ∈ ts, t.isVar = false) : (prefixString ts).all P = true := by
   cases ts with
   | nil => rfl
   | cons t ts =>
-    simp only [plainTokens, List.all_cons, Bool.and_eq_true] at h
+    simp only [tokensOk, List.all_cons, Bool.and_eq_true] at h
     have ht := hv t (by simp)
-    have h1 : plainStr t.text = true := by simpa [ht] using h.1
-    have h2 := plain_tail ts (by simpa [plainTokens] using h.2) (fun u hu => hv u (by simp [hu]))
-    simp only [plainStr] at h1 h2 ⊢
-    simp [prefixString, List.all_append, h1, h2]
+    have h1 : t.text.all P = true := by simpa [ht] using h.1
+    have h2 := all_tail P hdot ts (by simpa [tokensOk] using h.2) (fun u hu => hv u (by simp [hu]))
+    simp only [prefixString, List.all_append, h1, h2, Bool.and_self]
+
+theorem all_mono (P Q : Char → Bool) (hPQ : ∀ c, P c = true → Q c = true) (s : Str) (h : s.all P = true) :
+    s.all Q = true := by
+  rw [List.all_eq_true] at h ⊢
+  exact fun c hc => hPQ c (h c hc)
+
+theorem tokensOk_mono (P Q : Char → Bool) (hPQ : ∀ c, P c = true → Q c = true) (ts : List Tok)
+    (h : tokensOk P ts = true) : tokensOk Q ts = true := by
+  simp only [tokensOk, List.all_eq_true, Bool.or_eq_true] at h ⊢
+  intro t ht
+  rcases h t ht with hv | hp
+  · exact Or.inl hv
+  · exact Or.inr (fun c hc => hPQ c (hp c hc))
+
+/-! The exact class: which characters each language reads as text -/
+
+theorem plain_safe (l : Lang) (hv : Bool) (c : Char) (h : plainChar c = true) : safeChar l hv c = true := by
+  have := plain_ne c h
+  have h5 := this.2.2.2.2.1
+  have h6 := this.2.2.2.2.2
+  simp only [hzSQ, hzDQ, Bool.or_eq_false_iff, beq_eq_false_iff_ne] at h5 h6
+  cases l <;> cases hv <;> simp [safeChar, hazard, this.1, this.2.1, this.2.2.1, this.2.2.2.1, h5.1, h5.2, h6.1]
+
+theorem safe_dot (l : Lang) (hv : Bool) : safeChar l hv '.' = true := plain_safe l hv '.' dot_plain
+
+theorem litOk_dq (l : Lang) (hl : l = .go ∨ l = .java) : LitOk hzDQ (safeChar l false) := by
+  refine ⟨?_, safe_dot l false⟩
+  intro c h
+  rcases hl with rfl | rfl <;> simpa [safeChar, hazard, hzDQ] using h
+
+theorem pctOk_dq (l : Lang) (hl : l = .go ∨ l = .java) : PctOk hzDQ (safeChar l true) := by
+  refine ⟨?_, safe_dot l true⟩
+  intro c h
+  rcases hl with rfl | rfl <;>
+  · simp only [safeChar, hazard, Bool.true_and, Bool.not_eq_true', Bool.or_eq_false_iff, beq_eq_false_iff_ne] at h
+    exact ⟨h.2, by simp [hzDQ, h.1.1, h.1.2]⟩
+
+theorem litOk_sq (l : Lang) (hl : l.isPython = true) : LitOk hzSQ (safeChar l false) := by
+  refine ⟨?_, safe_dot l false⟩
+  intro c h
+  cases l <;> simp [Lang.isPython] at hl <;> simpa [safeChar, hazard, hzSQ] using h
+
+theorem brOk_sq (l : Lang) (hl : l.isPython = true) : BrOk hzSQ (safeChar l true) := by
+  refine ⟨?_, safe_dot l true⟩
+  intro c h
+  cases l <;> simp [Lang.isPython] at hl <;>
+  · simp only [safeChar, hazard, Bool.true_and, Bool.not_eq_true', Bool.or_eq_false_iff, beq_eq_false_iff_ne] at h
+    exact ⟨h.2.1, h.2.2, by simp [hzSQ, h.1.1, h.1.2]⟩
+
+theorem dolOk_dart (hv : Bool) : DolOk (safeChar .dart hv) := by
+  refine ⟨?_, safe_dot .dart hv⟩
+  intro c h
+  cases hv
+  · simp only [safeChar, hazard, Bool.false_and, Bool.or_false, Bool.not_eq_true', Bool.or_eq_false_iff, beq_eq_false_iff_ne] at h
+    exact ⟨h.2, by simp [hzSQ, h.1.1, h.1.2]⟩
+  · simp only [safeChar, hazard, Bool.true_and, Bool.not_eq_true', Bool.or_eq_false_iff, beq_eq_false_iff_ne] at h
+    exact ⟨h.1.2, by simp [hzSQ, h.1.1.1, h.1.1.2]⟩
+
+theorem pctOk_dart : PctOk hzNone (safeChar .dart true) := by
+  refine ⟨?_, safe_dot .dart true⟩
+  intro c h
+  simp only [safeChar, hazard, Bool.true_and, Bool.not_eq_true', Bool.or_eq_false_iff, beq_eq_false_iff_ne] at h
+  exact ⟨h.2, rfl⟩
 
 theorem prefixString_ne_nil (t : Tok) (ts : List Tok) (h : t.wf = true) : prefixString (t :: ts) ≠ [] := by
   simp only [Tok.wf, Bool.and_eq_true] at h
@@ -586,12 +653,22 @@ theorem prefixString_ne_nil (t : Tok) (ts : List Tok) (h : t.wf = true) : prefix
     | cons c s => simp [prefixString, Tok.text]
   | braced s => simp [prefixString, Tok.text]
 
-/-- The hypotheses under which the generated code is plain: grammar-conformant tokens, no
-format / quoting character in a static token or in the delimiter. -/
+/-- The hypotheses under which language `l` reads the pasted prefix as text and variables:
+grammar-conformant tokens, static tokens outside the EXACT class of the finding
+prefix-token-format-chars for `l` (`safeTokens`), a plain delimiter. -/
+structure SafeScope (l : Lang) (sc : Scope) (delim : Str) : Prop where
+  wf : ∀ t ∈ sc.pfx, t.wf = true
+  safe : safeTokens l sc = true
+  pdelim : plainStr delim = true
+
+/-- The stronger, language-independent hypothesis: no format / quoting character at all. -/
 structure PlainScope (sc : Scope) (delim : Str) : Prop where
   wf : ∀ t ∈ sc.pfx, t.wf = true
   plain : plainTokens sc.pfx = true
   pdelim : plainStr delim = true
+
+theorem PlainScope.safe' {sc : Scope} {delim : Str} (h : PlainScope sc delim) (l : Lang) : SafeScope l sc delim :=
+  ⟨h.wf, tokensOk_mono plainChar _ (plain_safe l _) sc.pfx h.plain, h.pdelim⟩
 
 theorem vars_eq (sc : Scope) (h : ∀ t ∈ sc.pfx, t.wf = true) : sc.vars = varNames sc.pfx :=
   scanVars_prefixString sc.pfx h
@@ -599,51 +676,67 @@ theorem vars_eq (sc : Scope) (h : ∀ t ∈ sc.pfx, t.wf = true) : sc.vars = var
 def prefixVal (sc : Scope) (vals : List Str) (delim : Str) : Str :=
   if sc.pfx = [] then [] else substPrefix vals sc.pfx ++ delim
 
-theorem prefixPct_eval (e : Env) (sc : Scope) (delim : Str) (h : PlainScope sc delim) :
+theorem delim_all (l : Lang) (hv : Bool) (delim : Str) (h : plainStr delim = true) :
+    delim.all (safeChar l hv) = true :=
+  all_mono plainChar _ (plain_safe l hv) delim h
+
+theorem prefixPct_eval (l : Lang) (hl : l = .go ∨ l = .java) (e : Env) (sc : Scope) (delim : Str)
+    (h : SafeScope l sc delim) :
     eval e (prefixPct sc.pfxStr delim sc.vars) = some (prefixVal sc e.vals delim) := by
-  rw [vars_eq sc h.wf]
+  have hsafe := h.safe
+  unfold safeTokens at hsafe
+  rw [vars_eq sc h.wf] at hsafe ⊢
   unfold prefixPct prefixVal Scope.pfxStr
   cases hp : sc.pfx with
   | nil => simp [varNames, prefixString, eval]
   | cons t ts =>
     have hwf : ∀ u ∈ t :: ts, u.wf = true := hp ▸ h.wf
-    have hpl : plainTokens (t :: ts) = true := hp ▸ h.plain
+    rw [hp] at hsafe
     have hne := prefixString_ne_nil t ts (hwf t (by simp))
     by_cases hv : varNames (t :: ts) = []
     · have hall := novars_all _ hv
       have hs := (novars_prefix [] e.vals _ hall).2
-      have hps := plain_prefix _ hpl hall
+      simp only [hv, List.isEmpty_nil, Bool.not_true] at hsafe
+      have hps := all_prefix _ (safe_dot l false) _ hsafe hall
       rw [if_pos hv, if_neg hne, if_neg (by simp), hs]
-      apply litq_plain hzDQ hzDQ_ok
-      simp only [plainStr] at hps ⊢
-      have hd : delim.all plainChar = true := h.pdelim
-      simp [List.all_append, hps, hd]
-    · rw [if_neg hv, if_neg (by simp), templateStr_prefixString _ _ hwf]
-      exact pct_prefix hzDQ hzDQ_ok e _ delim hpl h.pdelim (by simp)
+      apply litq_plain hzDQ _ (litOk_dq l hl)
+      simp only [List.all_append, hps, delim_all l false delim h.pdelim, Bool.and_self]
+    · have hemp : (varNames (t :: ts)).isEmpty = false := by
+        cases hvn : varNames (t :: ts) with
+        | nil => exact absurd hvn hv
+        | cons _ _ => rfl
+      simp only [hemp, Bool.not_false] at hsafe
+      rw [if_neg hv, if_neg (by simp), templateStr_prefixString _ _ hwf]
+      exact pct_prefix hzDQ _ (pctOk_dq l hl) e _ delim hsafe (delim_all l true delim h.pdelim) (by simp)
 
-
-
-theorem prefixPy_eval (e : Env) (sc : Scope) (delim : Str) (h : PlainScope sc delim) :
+theorem prefixPy_eval (l : Lang) (hl : l.isPython = true) (e : Env) (sc : Scope) (delim : Str)
+    (h : SafeScope l sc delim) :
     eval e (prefixPy sc.pfxStr delim sc.vars) = some (prefixVal sc e.vals delim) := by
-  rw [vars_eq sc h.wf]
+  have hsafe := h.safe
+  unfold safeTokens at hsafe
+  rw [vars_eq sc h.wf] at hsafe ⊢
   unfold prefixPy prefixVal Scope.pfxStr
   cases hp : sc.pfx with
   | nil => simp [varNames, prefixString, eval]
   | cons t ts =>
     have hwf : ∀ u ∈ t :: ts, u.wf = true := hp ▸ h.wf
-    have hpl : plainTokens (t :: ts) = true := hp ▸ h.plain
+    rw [hp] at hsafe
     have hne := prefixString_ne_nil t ts (hwf t (by simp))
     by_cases hv : varNames (t :: ts) = []
     · have hall := novars_all _ hv
       have hs := (novars_prefix [] e.vals _ hall).2
-      have hps := plain_prefix _ hpl hall
+      simp only [hv, List.isEmpty_nil, Bool.not_true] at hsafe
+      have hps := all_prefix _ (safe_dot l false) _ hsafe hall
       rw [if_pos hv, if_neg hne, if_neg (by simp), hs]
-      apply litq_plain hzSQ hzSQ_ok
-      simp only [plainStr] at hps ⊢
-      have hd : delim.all plainChar = true := h.pdelim
-      simp [List.all_append, hps, hd]
-    · rw [if_neg hv, if_neg (by simp), templateStr_prefixString _ _ hwf]
-      exact br_prefix hzSQ hzSQ_ok e _ delim hpl h.pdelim (by simp)
+      apply litq_plain hzSQ _ (litOk_sq l hl)
+      simp only [List.all_append, hps, delim_all l false delim h.pdelim, Bool.and_self]
+    · have hemp : (varNames (t :: ts)).isEmpty = false := by
+        cases hvn : varNames (t :: ts) with
+        | nil => exact absurd hvn hv
+        | cons _ _ => rfl
+      simp only [hemp, Bool.not_false] at hsafe
+      rw [if_neg hv, if_neg (by simp), templateStr_prefixString _ _ hwf]
+      exact br_prefix hzSQ _ (brOk_sq l hl) e _ delim hsafe (delim_all l true delim h.pdelim) (by simp)
 
 theorem okFollow_delim (delim : Str) (hd : plainStr delim = true) (hs : identStart delim = false) :
     OkFollow delim := by
@@ -656,32 +749,38 @@ theorem okFollow_delim (delim : Str) (hd : plainStr delim = true) (hs : identSta
 theorem identOk_ne_nil (n : Str) (h : identOk n = true) : n ≠ [] := by
   intro e; subst e; simp [identOk] at h
 
-theorem prefixDart_eval (e : Env) (sc : Scope) (delim : Str) (h : PlainScope sc delim)
+theorem prefixDart_eval (e : Env) (sc : Scope) (delim : Str) (h : SafeScope .dart sc delim)
     (hnd : sc.vars.Nodup) (hid : sc.vars.all identOk = true) (hsafe : dartSafe sc.pfx delim = true) :
     eval e (prefixDart sc.pfxStr delim sc.vars) = some (prefixVal sc e.vals delim) := by
-  rw [vars_eq sc h.wf] at hnd hid ⊢
+  have hst := h.safe
+  unfold safeTokens at hst
+  rw [vars_eq sc h.wf] at hnd hid hst ⊢
   unfold prefixDart dartSrc prefixVal Scope.pfxStr
   cases hp : sc.pfx with
   | nil => simp [prefixString, dolAux, eval]
   | cons t ts =>
     have hwf : ∀ u ∈ t :: ts, u.wf = true := hp ▸ h.wf
-    have hpl : plainTokens (t :: ts) = true := hp ▸ h.plain
     have hne := prefixString_ne_nil t ts (hwf t (by simp))
-    rw [hp] at hnd hid hsafe
-    have hd : delim.all plainChar = true := h.pdelim
+    rw [hp] at hnd hid hsafe hst
     by_cases hv : varNames (t :: ts) = []
     · have hall := novars_all _ hv
       have hs := (novars_prefix [] e.vals _ hall).2
       have hr := (novars_prefix ['%', 's'] e.vals _ hall).1
-      have hps := plain_prefix _ hpl hall
+      simp only [hv, List.isEmpty_nil, Bool.not_true] at hst
+      have hps := all_prefix _ (safe_dot .dart false) _ hst hall
       rw [if_neg hne, if_pos hv, if_neg (by simp), hs, templateStr_prefixString _ _ hwf, hr]
       simp only
-      have := dol_plain (varNames (t :: ts)) e (prefixString (t :: ts) ++ delim) [] (by
-        simp only [plainStr] at hps ⊢; simp [List.all_append, hps, hd])
+      have := dol_plain (varNames (t :: ts)) _ (dolOk_dart false) e (prefixString (t :: ts) ++ delim) [] (by
+        simp only [List.all_append, hps, delim_all .dart false delim h.pdelim, Bool.and_self])
       simp only [List.append_nil] at this
       rw [this]; simp [dolAux, eval]
-    · rw [if_neg hne, if_neg hv, if_neg (by simp), templateStr_prefixString _ _ hwf]
-      have h1 := pct_prefix hzNone hzNone_ok ⟨(varNames (t :: ts)).map (fun v => '$' :: v), [], [], []⟩ (t :: ts) delim hpl h.pdelim (by simp)
+    · have hemp : (varNames (t :: ts)).isEmpty = false := by
+        cases hvn : varNames (t :: ts) with
+        | nil => exact absurd hvn hv
+        | cons _ _ => rfl
+      simp only [hemp, Bool.not_false] at hst
+      rw [if_neg hne, if_neg hv, if_neg (by simp), templateStr_prefixString _ _ hwf]
+      have h1 := pct_prefix hzNone _ pctOk_dart ⟨(varNames (t :: ts)).map (fun v => '$' :: v), [], [], []⟩ (t :: ts) delim hst (delim_all .dart true delim h.pdelim) (by simp)
       rw [h1]
       simp only
       -- the Dart source text is the prefix with `$name` for every variable, then the delimiter
@@ -690,12 +789,11 @@ theorem prefixDart_eval (e : Env) (sc : Scope) (delim : Str) (h : PlainScope sc 
         intro hl
         apply okFollow_delim delim h.pdelim
         simpa [dartSafe, hl] using hsafe
-      have hdelim := dol_plain (varNames (t :: ts)) e delim [] h.pdelim
+      have hdelim := dol_plain (varNames (t :: ts)) _ (dolOk_dart true) e delim [] (delim_all .dart true delim h.pdelim)
       simp only [List.append_nil] at hdelim
-      simp only [plainTokens, List.all_cons, Bool.and_eq_true] at hpl
+      simp only [tokensOk, List.all_cons, Bool.and_eq_true] at hst
       simp only [substPrefix, List.append_assoc]
       change eval e (dolAux (varNames (t :: ts)) none (substTok (refs (varNames (t :: ts))) t 0 ++ (substTail (refs (varNames (t :: ts))) ts (nextIdx t 0) ++ delim))) = _
-      have hdrop0 : (varNames (t :: ts)).drop 0 = varNames (t :: ts) := rfl
       have hnext : (varNames (t :: ts)).drop (nextIdx t 0) = varNames ts := by
         cases hvn : t.varName with
         | none =>
@@ -722,10 +820,9 @@ theorem prefixDart_eval (e : Env) (sc : Scope) (delim : Str) (h : PlainScope sc 
         cases ts with
         | nil => simp [lastIsVar] at hl
         | cons u us => exact hfollow (by simpa [lastIsVar] using hl)
-      rw [dol_tok _ e t _ 0 hpl.1 hn hF,
-        dol_tail _ e ts delim _ (by simpa [plainTokens] using hpl.2) hnd hnext hne' hr', hdelim]
+      rw [dol_tok _ _ (dolOk_dart true) e t _ 0 hst.1 hn hF,
+        dol_tail _ _ (dolOk_dart true) e ts delim _ (by simpa [tokensOk] using hst.2) hnd hnext hne' hr', hdelim]
       simp [dolAux, eval]
-
 
 /-! ## Binding of arguments to parameters, forwarding -/
 
